@@ -23,11 +23,15 @@ def parse_results(paths):
             m = re.match(r"=== (C\d+) patch(\d)", line)
             if m:
                 cur = (m.group(1), int(m.group(2)))
-                runs.setdefault(cur, []).append({"verdict": None, "signatures": []})
+                runs.setdefault(cur, []).append({"verdict": None, "signatures": [], "check": cur[0]})
                 continue
             if cur is None:
                 continue
             r = runs[cur][-1]
+            m = re.match(r"\(run with the (C\d+) check\)", line)
+            if m:
+                r["check"] = m.group(1)
+                continue
             m = re.match(r"\s+(C\d+:[^ ]+?): ", line)
             if m and m.group(1) not in r["signatures"]:
                 r["signatures"].append(m.group(1))
@@ -37,6 +41,10 @@ def parse_results(paths):
             m = re.match(r"C\d+ quick seed=\d+: (\w+)", line)
             if m:
                 r["verdict"] = m.group(1)
+    for rs in runs.values():
+        for r in rs:
+            if r["verdict"] is None and r["signatures"]:
+                r["verdict"] = "VIOLATED"   # signature lines are only printed for new violations (log was truncated)
     return runs
 
 
@@ -46,7 +54,7 @@ def main():
     kept = 0
     for out in sorted(glob.glob("/tmp/mut/C*/out")):
         pid = out.split("/")[3]
-        for n in (1, 2):
+        for n in (1, 2, 3, 4):
             patch, demo, meta, conf = (os.path.join(out, f"{k}{n}.{e}") for k, e in (("patch", "diff"), ("demo", "rs"), ("meta", "json"), ("confirm", "json")))
             if not all(os.path.exists(x) for x in (patch, demo, meta, conf)):
                 continue
@@ -66,7 +74,11 @@ def main():
             shutil.copy(patch, os.path.join(d, "patch.diff"))
             shutil.copy(demo, os.path.join(d, f"demo_{pid}_{n}.rs"))
             history = runs.get((pid, n), [])
-            final = history[-1] if history else {"verdict": "not run", "signatures": []}
+            last_per_check = {}
+            for r in history:
+                last_per_check[r["check"]] = r
+            catching = [r for r in last_per_check.values() if r["verdict"] == "VIOLATED"]
+            final = catching[0] if catching else (history[-1] if history else {"verdict": "not run", "signatures": [], "check": pid})
             rec = {
                 "property": pid,
                 "summary": m.get("summary"),
@@ -84,9 +96,10 @@ def main():
                     "demo_with_patch_exit": c["demo_exit_with_patch"],
                     "demo_without_patch_exit": c["demo_exit_without_patch"],
                 },
-                "check_runs": [{"how": f"tools/seedcheck.sh {pid} patch.diff quick (scratch copy of /repo + harness, native engines)",
+                "check_runs": [{"how": f"tools/seedcheck.sh {r['check']} patch.diff quick (scratch copy of /repo + harness, native engines)",
                                 "verdict": r["verdict"], "signatures": r["signatures"][:8]} for r in history],
                 "detected_by_quick_check": final["verdict"] == "VIOLATED",
+                "detected_by": final.get("check") if final["verdict"] == "VIOLATED" else None,
                 "first_run_missed_then_check_strengthened": len(history) > 1 and history[0]["verdict"] == "HELD" and final["verdict"] == "VIOLATED",
             }
             json.dump(rec, open(os.path.join(d, "meta.json"), "w"), indent=1)
